@@ -565,6 +565,9 @@ func (e *Engine) vspecCall(st *State, fr *Frame, name string, args []Val) ([]Out
 			fail("Seen16: no iteration over this map is in progress")
 		}
 		return one(Select(it.Seen, mapKeyTerm(args[1]), 0))
+	case "ReaderPos":
+		r, _ := e.readerOf(st, args[0])
+		return one(r.Pos)
 	case "Exists":
 		// Exists(lo, hi, p) is the negation of "for all k in [lo, hi): not p(k)"; the universal fact is named and
 		// never skolemised, so the result may be used in any position
@@ -655,8 +658,6 @@ func (e *Engine) vspecCall(st *State, fr *Frame, name string, args []Val) ([]Out
 		qf := &Term{Leaf: fresh("qf"), W: 0, QDef: all}
 		qfMu.Lock()
 		allQFacts = append(allQFacts, &QFact{QF: qf, Key: fmt.Sprintf("map|%d", mv.ID), Shift: BVu(0, kw), BV: bv, Body: body})
-		// also at the keys an iteration produces and at skolem constants (no memory read determines the instance)
-		looseQFacts = append(looseQFacts, &QFact{QF: qf, BV: bv, Body: body})
 		qfMu.Unlock()
 		return one(qf)
 	case "BufOld":
